@@ -1004,6 +1004,76 @@ pub fn run(cx: &mut Cx) {
         }
     }
 
+    // (e) integers respelt in the text that is parsed: "+4321", "004321", "-0".
+    // Whether such a spelling is accepted is not stated; if it is, the entry
+    // holds the number, and the printed form depends only on the values - it
+    // is the canonical text, whatever the parsed text looked like.
+    {
+        let n = cx.per_shard(4, 300, 3_000, 30_000);
+        let mut r = cx.stream("respelt-integers");
+        for _ in 0..n {
+            let full = r.chance(1, 2);
+            let mut m = gs::model(&mut r, full, 1, 3);
+            let a = *r.pick(&[0i64, 1, 7, 4321, 1_000_000, 9_007_199_254_740_993, i64::MAX]);
+            let var = if r.chance(1, 2) { os::FILE_SIZE } else { os::SIZE_PKG };
+            m.set(var, Val::I(a));
+            let canon = m.print();
+            let plain = format!("{}={a}", VARS[var].name);
+            let spelt = match r.below(5) {
+                0 => format!("{}=+{a}", VARS[var].name),
+                1 => format!("{}=0{a}", VARS[var].name),
+                2 => format!("{}=000000000000000000000{a}", VARS[var].name),
+                3 if a == 0 => format!("{}=-0", VARS[var].name),
+                _ => format!("{}=+0{a}", VARS[var].name),
+            };
+            // (the whole line, not the same text inside another value)
+            let mut hit = false;
+            let text: String = canon
+                .split_inclusive('\n')
+                .map(|l| {
+                    if !hit && l.trim_end_matches('\n') == plain {
+                        hit = true;
+                        format!("{spelt}\n")
+                    } else {
+                        l.to_string()
+                    }
+                })
+                .collect();
+            if !hit {
+                continue;
+            }
+            cx.check(
+                || format!("parsed text with {spelt:?} for {plain:?}"),
+                |ev| {
+                    ev.count("workload/respelt_integers");
+                    ev.eval();
+                    match Summary::from_str(&text) {
+                        Err(_) => {
+                            ev.count("respelt/rejected");
+                            Ok(())
+                        }
+                        Ok(sum) => {
+                            ev.count("respelt/accepted");
+                            if get(&sum, var) != Some(Val::I(a)) {
+                                // another number was read: not this monitor's business
+                                return Ok(());
+                            }
+                            let printed = sum.to_string();
+                            if printed != canon {
+                                return Err(format!(
+                                    "the entry parsed from a text with {spelt:?} holds {a} like one built by the setter, but prints differently: {}",
+                                    text_diff(&printed, &canon)
+                                )
+                                .into());
+                            }
+                            Ok(())
+                        }
+                    }
+                },
+            );
+        }
+    }
+
     // (c) extreme sizes in both integer variables
     if cx.tier != Tier::Mini {
         let mut r = cx.shared_stream("sizes");
